@@ -13,6 +13,10 @@ for d in sorted(glob.glob(os.path.join(ROOT, "seeded", "*"))):
     tier = r.get("detected_by")
     how = ""
     if tier:
-        rp = r[tier].get("replay", {})
-        how = f"{rp.get('kind')} `{rp.get('clause')}`" + ("" if r.get("concrete_input") else " (no-failing-input-found)")
+        if tier in r:
+            rp = r[tier].get("replay", {})
+            how = f"{rp.get('kind')} `{rp.get('clause')}`" + ("" if r.get("concrete_input") else " (no-failing-input-found)")
+        else:
+            other = [k for k in r if k.startswith("also_")]
+            how = "by the check of " + ", ".join(k[5:] for k in other) + ": " + "; ".join(l[:120] for k in other for l in r[k].get("lines", []))
     print(f"| `{os.path.basename(d)}` | {r['property']} | {desc} | {tier or '**missed**'} | {how} |")
